@@ -485,7 +485,15 @@ class MetaDataReplace(MosFile):
         Merge into the :class:`RunningOrder` object provided.
         """
         for source in self.base_tag:
-            target, target_index = find_child(parent=ro.base_tag, child_tag=source.tag)
+            if source.tag == 'mosExternalMetadata':
+                # only replace a mosExternalMetadata block with the same mosSchema
+                target, target_index = None, None
+                for i, child in enumerate(ro.base_tag):
+                    if child.tag == source.tag and child.findtext('mosSchema') == source.findtext('mosSchema'):
+                        target, target_index = child, i
+                        break
+            else:
+                target, target_index = find_child(parent=ro.base_tag, child_tag=source.tag)
             if target is None:
                 insert_node(parent=ro.base_tag, node=source, index=len(ro.base_tag))
             else:
